@@ -106,6 +106,9 @@ class ExprMixin:
                 return VCallable('func', fi=fi, closure=None)
             consts = self.repo.module_consts.get(mod, {})
             if name in consts:
+                key = f"{mod}.{name}"
+                if any(k.startswith(key + '.') for k in self.reg.contracts):
+                    return VOpaque(key, 'opaque')
                 return self.module_const(mod, name)
         # imported function from another module of the package
         for m2 in self.repo.modules:
@@ -411,6 +414,11 @@ class ExprMixin:
             k = self.fresh_int('m')
             return z3.Exists([k], z3.And(k >= 0, k < container.n,
                                          zbool(self.equals(item, seq_get(container, k), fr, node))))
+        if isinstance(container, VOpaque) and container.tag == 'opaque' and isinstance(container.py, str):
+            c = self.reg.get(container.py + '.__contains__')
+            if c is not None:
+                r = self.apply_contract(c, None, self.bind_contract(c, [item], {}), fr, node)
+                return zbool(self.truth(r, fr))
         if isinstance(container, (VRef, VRec)):
             if fr.spec:
                 raise Unsupported("`in` on object in spec mode")
@@ -470,7 +478,16 @@ class ExprMixin:
                         # object.__format__ raises TypeError for a non-empty format spec
                         if not fr.spec:
                             raise RaiseSig('TypeError', None, node)
-        return VOpaque(None, 'str')
+        parts = []
+        for part in node.values:
+            if isinstance(part, ast.Constant):
+                parts.append(part.value)
+            else:
+                try:
+                    parts.append(self.ev(part.value, fr))
+                except Unsupported:
+                    parts.append(None)
+        return VOpaque(parts, 'str')
 
     def lacks_format(self, v):
         if isinstance(v, VOpaque) and v.tag == 'excobj':
@@ -551,12 +568,19 @@ class ExprMixin:
             raise Unsupported(f"class attribute {obj.cls}.{attr}")
         if isinstance(obj, (VSeq, VView)):
             return VCallable('seqmethod', name=attr, seq=obj, origin=self._origin(node.value if node is not None else None, fr))
+        if isinstance(obj, VOpaque) and obj.tag == 'kwargs':
+            return VOpaque((obj.py, attr), 'kwargsmethod')
         if isinstance(obj, VOpaque):
             if obj.tag in ('dropped', 'opaque', 'module', 'str', 'emptylist', 'emptydict'):
                 if obj.tag == 'emptylist' and attr in ('append', 'extend'):
                     return VCallable('seqmethod', name=attr, seq=obj, origin=self._origin(node.value, fr))
                 if obj.tag == 'module':
                     return self.module_attr(obj.py, attr, fr, node)
+                if obj.tag == 'opaque' and isinstance(obj.py, str):
+                    key = f"{obj.py}.{attr}"
+                    if self.reg.get(key) is not None:
+                        return VCallable('external', key=key)
+                    return VOpaque(key, 'opaque')
                 return VOpaque((obj.py, attr), obj.tag if obj.tag != 'emptylist' else 'opaque')
             if obj.tag == 'const':
                 return VOpaque((obj.py, attr), 'constmethod')
@@ -588,6 +612,9 @@ class ExprMixin:
                 fi = self.repo.function(f"{m2}.{attr}")
                 if fi is not None:
                     return VCallable('func', fi=fi, closure=None)
+            key = f"{modname}.{attr}"
+            if any(k.startswith(key + '.') for k in self.reg.contracts):
+                return VOpaque(key, 'opaque')
             for m2 in self.repo.modules:
                 if attr in self.repo.module_consts.get(m2, {}):
                     return self.module_const(m2, attr)
@@ -596,7 +623,7 @@ class ExprMixin:
         key = f"{modname}.{attr}"
         if self.reg.get(key) is not None:
             return VCallable('external', key=key)
-        return VOpaque((modname, attr), 'opaque')
+        return VOpaque(key, 'opaque')
 
     def _origin(self, node, fr):
         """Where a list value lives, so that in-place mutation can be written back."""
@@ -674,6 +701,10 @@ class ExprMixin:
             if fr.spec:
                 raise Unsupported("object subscript in spec mode")
             return self.call_method(base, '__getitem__', [idx], {}, fr, node)
+        if isinstance(base, VOpaque) and base.tag == 'opaque' and isinstance(base.py, str) and \
+                self.reg.get(base.py + '.__getitem__') is not None:
+            c = self.reg.get(base.py + '.__getitem__')
+            return self.apply_contract(c, None, self.bind_contract(c, [idx], {}), fr, node)
         if isinstance(base, VOpaque):
             if base.tag in ('dropped', 'opaque', 'module', 'emptydict'):
                 return VOpaque(None, 'dropped' if base.tag == 'dropped' else 'opaque')
@@ -748,10 +779,12 @@ class ExprMixin:
         # recorded inside are dropped again afterwards
         saved_pc, saved_ids = list(self.pc), set(self.pc_ids)
         self.assume(z3.And(iv >= 0, iv < src.n))
+        self.in_quant += 1
         try:
             self.bind_target(g.target, seq_get(src, iv), inner)
             ev = self.ev(elt, inner)
         finally:
+            self.in_quant -= 1
             self.pc, self.pc_ids = saved_pc, saved_ids
         ety = type_of(ev)
         R = fresh(Ty('seq', elem=ety, skind=skind), self.fresh_name('comp'))
@@ -840,8 +873,13 @@ class ExprMixin:
             rty = parse_type(c.returns)
             if rty.cls in self.repo.classes:
                 self.assume(z3.ForAll([iv], z3.Implies(guard, self.isinstance_z(VRef(refz, None), rty.cls))))
-        for post in list(c.ensures) + list(getattr(c, 'assumed_ensures', [])):
-            self.assume(z3.ForAll([iv], z3.Implies(guard, self.ev_spec(post, sf))))
+        self.in_quant += 1
+        try:
+            posts = [self.ev_spec(post, sf) for post in list(c.ensures) + list(getattr(c, 'assumed_ensures', []))]
+        finally:
+            self.in_quant -= 1
+        for g_post in posts:
+            self.assume(z3.ForAll([iv], z3.Implies(guard, g_post)))
         R = fresh(Ty('seq', elem=Ty('ref', cls=rcls, nullable=False), skind='list'), self.fresh_name('comp'))
         self.assume(R.n == n)
         self.assume(z3.ForAll([iv], z3.Implies(guard, z3.Select(R.elem.z, iv) == refz)))
